@@ -64,6 +64,33 @@ def scenario_pairs(name):
            fdl.Config(g, p=[fdl.Config(atomic_defaults, steps=1, seed=5)]), False)
     yield (fdl.Partial(atomic_defaults, warmup=0), fdl.Partial(atomic_defaults, seed=2), False)
     return
+  if name == 'mixed_containers':
+    # equal-valued containers of DIFFERENT registered types at the same position (Python says
+    # tuple == namedtuple, dict == defaultdict): the configurations build different objects, so
+    # == is False - in both directions, never an exception
+    import collections
+    f = graphs.node_fn(1, 0)
+    g = graphs.node_fn(1, 1)
+    # (where Python itself calls the two containers equal and nothing but their type differs -
+    # defaultdict vs dict, a namedtuple of literals vs a tuple of literals - the property's
+    # "different argument values" does not decide the answer: expectation None = only "does not
+    # raise, is symmetric, != is the negation")
+    for inner, opaque in ((lambda: fdl.Config(g, p=1), False), (lambda: [1], False), (lambda: 7, True)):
+      yield fdl.Config(f, p=graphs.NT(inner(), 2)), fdl.Config(f, p=(inner(), 2)), (None if opaque else False)
+      yield fdl.Config(f, p=(inner(), 2)), fdl.Config(f, p=graphs.NT(inner(), 2)), (None if opaque else False)
+      dd = collections.defaultdict(list)
+      dd['k'] = inner()
+      yield fdl.Config(f, p=dd), fdl.Config(f, p={'k': inner()}), None
+      yield fdl.Config(f, p={'k': inner()}), fdl.Config(f, p=dd), None
+      yield fdl.Config(f, p=graphs.NT(inner(), 2)), fdl.Config(f, p=graphs.NT(inner(), 2)), True
+      dd2 = collections.defaultdict(list)
+      dd2['k'] = inner()
+      yield fdl.Config(f, p=dd), fdl.Config(f, p=dd2), True
+      yield fdl.Config(f, p=[inner(), 2]), fdl.Config(f, p=(inner(), 2)), False
+      shared = inner()
+      yield (fdl.Config(f, p=graphs.NT(shared, 2), q=shared), fdl.Config(f, p=(inner(), 2), q=inner()),
+             (None if opaque else False))
+    return
   if name == 'namedtuple_subclass':
     # sharing that runs through a SUBCLASS of a namedtuple class (and a sub-subclass)
     f = graphs.node_fn(1, 0)
@@ -121,9 +148,15 @@ def cases(tier, r):
   yield 'scenario', {'scenario': 'dataclass_factory', 'seed': 0}
   yield 'scenario', {'scenario': 'namedtuple_subclass', 'seed': 0}
   yield 'scenario', {'scenario': 'same_count_different_keys', 'seed': 0}
+  yield 'scenario', {'scenario': 'mixed_containers', 'seed': 0}
+  # the same scenarios again after a comparison that RAISED earlier in the thread (an array-like
+  # leaf): == keeps no state from one comparison to the next
+  for name in ('shared_defaults', 'namedtuple_subclass', 'mixed_containers'):
+    yield 'scenario', {'scenario': name, 'seed': 1, 'after_raising_eq': True}
   for _ in range(900 if tier == 'quick' else 15000):
     yield 'pair', {'seed': r.getrandbits(48), 'size': r.choice([3, 5, 8]),
-                   'rewrites': [r.choice(REWRITES) for _ in range(2)], 'mixed': r.random() < 0.3}
+                   'rewrites': [r.choice(REWRITES) for _ in range(2)], 'mixed': r.random() < 0.3,
+                   'after_raising_eq': r.random() < 0.1}
 
 
 def base_config(r, case):
@@ -369,7 +402,35 @@ def build_canon(c):
     return {'raised': type(e).__name__}
 
 
+class _Ambiguous:
+  """Array-like leaf: == returns an object whose truth value is ambiguous."""
+
+  def __eq__(self, other):
+    return self
+
+  def __ne__(self, other):
+    return self
+
+  def __bool__(self):
+    raise ValueError('The truth value of an array with more than one element is ambiguous')
+
+  __hash__ = None
+
+
+def raising_eq_prelude():
+  f = graphs.node_fn(1, 0)
+  for a, b in ((fdl.Config(f, p=_Ambiguous()), fdl.Config(f, p=_Ambiguous())),
+               (fdl.Config(f, p=[fdl.Config(f, q=_Ambiguous())]), fdl.Config(f, p=[fdl.Config(f, q=_Ambiguous())]))):
+    for x, y in ((a, b), (b, a)):
+      try:
+        x == y
+      except Exception:
+        pass
+
+
 def execute(case):
+  if case.get('after_raising_eq'):
+    raising_eq_prelude()
   if case.get('scenario'):
     obs = {'refl': (True, False), 'pairs': [], 'reqs': []}
     for a, b, expect in scenario_pairs(case['scenario']):
@@ -438,6 +499,8 @@ def oracle(case, real):
       return {'what': '== is not symmetric', 'rec': rec}
     if rec['ne'] == rec['eq']:
       return {'what': '!= is not the negation of ==', 'rec': rec}
+    if rec['preserving'] is None:
+      continue
     if rec['preserving'] and not rec['eq']:
       return {'what': 'an equality-preserving rewrite changed ==', 'rec': rec}
     alias_rw = rec['rewrite'] in ('rb_unshare', 'rb_share')
